@@ -181,9 +181,8 @@ Proof.
   all: try solve [subst cur; cbn [hs_tab hs_cur]; split; first [reflexivity | (left; reflexivity)]].
   all: try solve [specialize (O2 _ eq_refl); rewrite (C3 eq_refl) in Hc; cbn [cur_ok] in Hc;
                   destruct after; cbn [after_pc] in O2; try contradiction;
-                  try (match goal with b : bool |- _ => destruct b end; try contradiction);
+                  try (match goal with |- context [cur_ok _ (PRecv ?b)] => destruct b end; try contradiction);
                   split; [reflexivity|exact Hc]].
-  Show.
 Qed.
 
 Lemma scan_hs_gen es : forall pre s0 s x,
